@@ -78,6 +78,8 @@ def classify(sys_, call, target, exp, obs, via):
         return "empty-path"
     if "path" in call and _has_symlink(call):
         return "symlink-in-path"
+    if "symlink" in via and op == "open" and call.get("path") in ([".",], ["..",]):
+        return "after-symlink-open"        # the working directory was entered through a symbolic link
     if op == "open" and target == "dir" and e == "err:EISDIR" and o == "fd":
         return "open-directory-for-writing"
     if op == "open" and "C" in call.get("fl", []) and target == "ENOENT" and o == "fd":
@@ -322,23 +324,30 @@ _SHAPES = [
 _FORKS = re.compile(r'^\(|\||\$\(|&')
 
 
-def script_shape(steps):
-    """Shape of the first step of the script that has a recognised shape: a
-    redirection to the empty name / through a symbolic link / into a missing
-    directory / to a directory, a step that forks after the shell changed its
-    working directory or umask (or that prints the umask in a child), a step
-    that names a descriptor number after a pathname expansion."""
+def script_shapes(steps):
+    """The recognised shapes among the steps of a script, in order of first
+    occurrence: a redirection to the empty name / through a symbolic link /
+    into a missing directory / to a directory, a step that forks after the
+    shell changed its working directory or umask (or that prints the umask in
+    a child), a step that names a descriptor number after a pathname
+    expansion."""
     moved = globbed = in_d = False
+    found = []
+
+    def add(name):
+        if name not in found:
+            found.append(name)
+
     for t in steps:
         for name, rx in _SHAPES:
             if rx.search(t):
-                return name
+                add(name)
         if in_d and re.search(r'>\s*d/n', t):
-            return "creat-missing-parent"
+            add("creat-missing-parent")
         if _FORKS.search(t) and (moved or re.search(r'\(.*\bumask\b', t)):
-            return "fork-after-cd-or-umask"
+            add("fork-after-cd-or-umask")
         if globbed and re.search(r'&[34]|exec [34]', t):
-            return "descriptor-after-glob"
+            add("descriptor-after-glob")
         if re.match(r'^(cd d|umask 0\d+)$', t):
             moved = True
         if t == "cd d":
@@ -347,7 +356,7 @@ def script_shape(steps):
             in_d = False
         if "echo ? l?" in t:
             globbed = True
-    return ""
+    return found
 
 
 def part_b(tier, wd, agg, cov):
@@ -405,9 +414,9 @@ def part_b(tier, wd, agg, cov):
                 who = "sim" if "sim_vs_model" in dev else "real" if "real_vs_model" in dev else "sim-vs-real"
                 if "sim_vs_model" in dev and "real_vs_model" in dev:
                     who = "both"
-                shape = script_shape(v["steps"])
-                key = {"level": "script", "shape": shape, "who": who}
-                if not shape:
+                shapes = script_shapes(v["steps"])
+                key = {"level": "script", "shapes": ",".join(shapes), "who": who}
+                if not shapes:
                     key["step"] = v["steps"][-1]
                     key["fields"] = ",".join(sorted(set(sum(dev.values(), []))))
                 agg.add(key, f"script behaves differently ({who}): {' ; '.join(v['steps'])}",
